@@ -226,9 +226,11 @@ def results_ins(mon, fs, job):
     if not _close(fs.log_evidence, z_ref, tol):
         V("log-evidence!=recomputed",
           f"reported {fs.log_evidence!r} recomputed {z_ref!r}")
-    Zi = np.exp(lw.astype(np.longdouble))
-    Zh = np.exp(np.longdouble(z_ref))
-    e_ref = float(np.sqrt(np.sum((Zi - Zh) ** 2) / (N * (N - 1.0))) / Zh)
+    # standard error of the mean importance weight over its mean, with every
+    # term scaled by the estimate itself (independent of the magnitude of
+    # the likelihood)
+    ri = np.exp(lw - z_ref)
+    e_ref = float(np.sqrt(np.sum((ri - 1.0) ** 2) / (N * (N - 1.0))))
     if not _close(fs.log_evidence_error, e_ref, 1e-9 * max(1.0, e_ref)):
         V("log-evidence-error!=recomputed",
           f"reported {fs.log_evidence_error!r} recomputed {e_ref!r}")
